@@ -39,6 +39,8 @@ func c04Scenarios(tier string) []CScenario {
 		{Name: "ring-of-batches", Threads: [][]CReq{{attsN(k01, 0, 1)}, {attsN(k12, 0, 1)}, {attsN(k20, 0, 1)}}},
 		{Name: "same-batch-twice", Threads: [][]CReq{{attsN(k01, 0, 1)}, {attsN(k01, 0, 1)}}},
 		{Name: "multisign-vs-batch", Threads: [][]CReq{{signsN(0, 1)}, {attsN(k10, 0, 1)}}},
+		{Name: "multisign-ab-vs-ba", Threads: [][]CReq{{signsN(0, 1)}, {signsN(1, 0)}}},
+		{Name: "multisign-abc-vs-cab-vs-single", Threads: [][]CReq{{signsN(0, 1, 2)}, {signsN(2, 0, 1)}, {att1(1, 0, 1)}}},
 		{Name: "batch-vs-two-singles", Threads: [][]CReq{{attsN(k01, 1, 2)}, {att1(0, 0, 1)}, {att1(1, 0, 1)}}},
 	}
 	// Malformed batches are refused as a whole and must not disturb others.
